@@ -62,7 +62,7 @@ def load_record(tmp, sc, idx):
     gs_tmp = os.path.join(d, 'ref.gs')
     scratch = os.path.join(tmp, f'scratch{idx}')           # built elsewhere: nothing but the final files is ever written at the database path
     W.build_db(scratch, w2 if not sc.get('nulls') else dict(w2, genomes=[dict(g, key=g['key']) for g in genomes]), id_attr='key',
-               annot_order=sc.get('annot_order'))
+               annot_order=sc.get('annot_order'), orphans=sc.get('orphans', ()))
     os.replace(os.path.join(scratch, 'ref.gdb'), os.path.join(d, 'ref.gdb'))
     shutil.rmtree(scratch, ignore_errors=True)
     # metadata id_attr as the scenario wants it (possibly None / junk): rewrite the attribute in place
@@ -110,7 +110,7 @@ def load_record(tmp, sc, idx):
         db = ReferenceDatabase.load_from_dir(d)
         r['outcome'] = 'loaded'
         keyidx = {g['key']: j + 1 for j, g in enumerate(genomes)}
-        r['g'] = [keyidx.get(ag.key, 0) for ag in db.genomes]
+        r['g'] = [keyidx.get(ag.key, 0) if ag.genome_set_id == db.genomeset.id else 0 for ag in db.genomes]      # 0: not a member of the genome set
         r['I'] = [int(i) for i in db.sig_indices]
     except Exception as e:
         r['outcome'] = 'error'
@@ -194,6 +194,12 @@ def scenarios(ctx):
         for ao in ([3, 2, 1, 0], [2, 0, 3, 1]):
             yield dict(world=w, id_attr=attr, sig_order=[1, 3, 0, 2], annot_order=ao, probe=True, extra=[dict(extra1[0], pos=2, id=(9999 if attr == 'ncbi_id' else 'unrelated_X'))],
                        why=f'annotations inserted in order {ao}')
+    # annotation rows of a removed genome set still in the file (orphans): only the loaded set's own genomes count
+    for attr in ('key', 'refseq_acc'):
+        yield dict(world=w, id_attr=attr, sig_order=[2, 0, 3, 1], orphans=[1, 3], probe=True, why='orphan annotations of set genomes')
+        foreign = dict(key='foreign_g', genbank_acc='GCA_9999.1', refseq_acc='GCF_9999.1', ncbi_id=99999)
+        yield dict(world=w, id_attr=attr, sig_order=[0, 1, 3], orphans=[foreign], extra=[dict(extra1[0], pos=1, id=foreign[attr])],
+                   why='a genome of no set has a signature, a set genome has none: must fail')
     # identifiers that differ only by trailing white space (blank, tab, newline) or by case: exact matching, nothing trimmed or folded
     for attr in ('key', 'genbank_acc', 'refseq_acc'):
         base = w['genomes'][0][attr]
